@@ -25,6 +25,7 @@ ASSUMPTIONS = ["timer checks happen at the harness's ticks (one I/O-loop iterati
                "(the reader thread registers them concurrently with that step's timer check)",
                "'longer than the timeout' is strict: elapsed == timeout must not trigger"]
 TIMEOUT = {"quick": 900, "thorough": 3600}
+SCTP_CLONES = {"quick": ['rand5', 'exh9'], "thorough": ['rand14', 'rand15', 'exh15']}
 EVENTS = ["none", "traffic", "dwa", "dwr", "partial"]
 
 
